@@ -432,7 +432,8 @@ fn source_scan(rep: &mut Report) {
             }
         }
     }
-    walk(std::path::Path::new("/repo/src"), &mut hits);
+    let repo = std::env::var("VERIF_REPO").unwrap_or_else(|_| "/repo".to_string());
+    walk(&std::path::Path::new(&repo).join("src"), &mut hits);
     for h in &hits {
         println!("NOTE assumption-weakened: possible shared mutable state outside the scheduling-point model: {}", h);
     }
